@@ -18,7 +18,12 @@ type Dump = Vec<(EntryView, Vec<u8>)>;
 
 fn dump_mode(bytes: &[u8], mode: Mode) -> Result<Dump, String> {
     let (file, _sh) = MonFile::new(bytes.to_vec());
-    let mut cf = engine::open_with(file, mode, None).map_err(|e| e.to_string())?;
+    // a buffer size is given for two images in three (a pure function of the bytes, the
+    // same for both modes): the builder is then used with both of its settings, in
+    // either order (see engine::open_with)
+    let h = fnv64(bytes);
+    let bufsize = if h % 3 == 0 { None } else { Some(1024usize << ((h >> 8) % 5)) };
+    let mut cf = engine::open_with(file, mode, bufsize).map_err(|e| e.to_string())?;
     engine::dump_live(&mut cf)
 }
 
